@@ -311,7 +311,8 @@ def act_src(a):
 
 INIT_VAL = {"int": {"t": "int", "i": 3}, "number": {"t": "float", "n": 3, "d": 2},
             "list": {"t": "list", "v": [{"t": "int", "i": 1}, {"t": "int", "i": 2}]},
-            "str": {"t": "str", "v": ["a"]}, "anything": {"t": "null"}, "sat-small": {"t": "int", "i": 1}}
+            "str": {"t": "str", "v": ["a"]}, "anything": {"t": "null"}, "sat-small": {"t": "int", "i": 1},
+            "stream": {"t": "stream", "v": [{"t": "int", "i": 1}, {"t": "int", "i": 2}]}}
 
 
 def var_steps(types, acts, sfx):
